@@ -1086,11 +1086,12 @@ func (e *effEngine) recordWrite(fn *ssa.Function, st *fnLocal, in ssa.Instructio
 		// local cell
 	default:
 		// *p = v through a pointer value
+		refOnly, nilOnly := overwriteGuards(in.Block(), addr)
 		for _, p := range e.prov(fn, addr) {
 			if p.kind == rFresh {
 				continue
 			}
-			addEff(effect{kind: kind, target: p.add("*"), pos: in.Pos(), fn: fn, blk: in.Block(), held: heldClasses(in), guarded: true})
+			addEff(effect{kind: kind, target: p.add("*"), pos: in.Pos(), fn: fn, blk: in.Block(), held: heldClasses(in), guarded: true, refOnly: refOnly, nilOnly: nilOnly})
 		}
 	}
 }
@@ -1250,11 +1251,28 @@ func (e *effEngine) liftCallee(fn *ssa.Function, st *fnLocal, call ssa.CallInstr
 		} else {
 			targets = e.subst(fn, call, cal, ce.target)
 		}
+		// `*p = v` in the callee where the caller hands in `&x.f`: a write of the field x.f
+		var addrOf *ssa.FieldAddr
+		if ce.owner == "" && ce.target.kind == rParam && ce.target.sels == "/*" {
+			args := call.Common().Args
+			idx := ce.target.idx
+			if call.Common().IsInvoke() {
+				idx--
+			}
+			if idx >= 0 && idx < len(args) {
+				addrOf, _ = args[idx].(*ssa.FieldAddr)
+			}
+		}
 		for _, tp := range targets {
 			ne := ce
 			ne.target = tp
 			if ce.owner == "" {
 				ne.elemOf = lastField(tp)
+			}
+			if addrOf != nil && strings.HasSuffix(tp.sels, "/*") {
+				ne.target.sels = strings.TrimSuffix(tp.sels, "/*")
+				ne.owner, ne.field = fieldOwner(addrOf.X.Type(), addrOf.Field)
+				ne.elemOf = ""
 			}
 			if ce.needLen >= 0 {
 				args := call.Common().Args
